@@ -35,12 +35,12 @@ def sched_obs(o):
     return o["cfg:pika.scheduler"], d
 
 
-SCHED_DESC = {"local-priority-fifo": "local_priority_queue_scheduler", "static": "static_queue_scheduler", "static-priority": "static_priority_queue_scheduler", "local": "local_queue_scheduler"}
+SCHED_DESC = {"local-priority-lifo": "local_priority_queue_scheduler", "local-priority-fifo": "local_priority_queue_scheduler", "static": "static_queue_scheduler", "static-priority": "static_priority_queue_scheduler", "local": "local_queue_scheduler"}
 
 SETTINGS = {
     # values: two distinct valid values per source so that the winner is identifiable
     "threads": {
-        "values": {"cmdline": "3", "env": "2", "clo": "4", "ini": "1"},
+        "values": {"cmdline": "3", "env": "2", "clo": "4", "ini": "1", "clo_ini": "5"},
         "cmdline": lambda v: ["--pika:threads=" + v], "env": lambda v: {"PIKA_THREADS": v},
         "clo": lambda v: "--pika:threads=" + v, "ini": lambda v: ["--pika:ini=pika.os_threads=" + v],
         "default": str(NPU),
@@ -48,7 +48,7 @@ SETTINGS = {
         "consistent": lambda o: o["cfg:pika.os_threads"] == str(o["os_threads"]) and len(o["worker_masks"]) == o["os_threads"],
     },
     "scheduler": {
-        "values": {"cmdline": "static", "env": "static-priority", "clo": "local", "ini": "static"},
+        "values": {"cmdline": "static", "env": "static-priority", "clo": "local", "ini": "static", "clo_ini": "local-priority-lifo"},
         "cmdline": lambda v: ["--pika:scheduler=" + v], "env": lambda v: {"PIKA_SCHEDULER": v},
         "clo": lambda v: "--pika:scheduler=" + v, "ini": lambda v: ["--pika:ini=pika.scheduler=" + v],
         "default": "local-priority-fifo",
@@ -56,7 +56,7 @@ SETTINGS = {
         "consistent": lambda o: SCHED_DESC.get(o["cfg:pika.scheduler"], "?") in o["scheduler"],
     },
     "bind": {
-        "values": {"cmdline": "compact", "env": "scatter", "clo": "none", "ini": "balanced"},
+        "values": {"cmdline": "compact", "env": "scatter", "clo": "none", "ini": "balanced", "clo_ini": "numa-balanced"},
         "cmdline": lambda v: ["--pika:bind=" + v], "env": lambda v: {"PIKA_BIND": v},
         "clo": lambda v: "--pika:bind=" + v, "ini": lambda v: ["--pika:ini=pika.bind=" + v],
         "default": "balanced",
@@ -94,7 +94,7 @@ SETTINGS = {
         "consistent": lambda o: int(o["cfg:pika.stacks.huge_size"], 0) == o["stack_huge"],
     },
     "mask": {
-        "values": {"cmdline": "0xf0", "env": "0x3c"},
+        "values": {"cmdline": "0x3f0", "env": "0xfc"},
         "cmdline": lambda v: ["--pika:process-mask=" + v], "env": lambda v: {"PIKA_PROCESS_MASK": v},
         "default": "",
         "observe": lambda o: o["cfg:pika.process_mask"],
@@ -109,7 +109,7 @@ SETTINGS = {
         "consistent": lambda o: True,
     },
 }
-RANK = {"cmdline": 3, "ini": 3, "env": 2, "clo": 2}   # ini is given on the command line; env and PIKA_COMMANDLINE_OPTIONS share a level
+RANK = {"cmdline": 3, "ini": 3, "env": 2, "clo": 2, "clo_ini": 2}   # ini is given on the command line; env and PIKA_COMMANDLINE_OPTIONS (dedicated option or --pika:ini entry: clo_ini) share a level
 
 
 def build(point):
@@ -126,6 +126,8 @@ def build(point):
             env.update(s["env"](v))
         elif source == "clo":
             clo.append(s["clo"](v))
+        elif source == "clo_ini":
+            clo.append(s["ini"](v)[0])
     if clo:
         env["PIKA_COMMANDLINE_OPTIONS"] = " ".join(clo)
     expected = {}
@@ -144,11 +146,18 @@ def build(point):
             # the statement orders dedicated command-line option > environment variable / PIKA_COMMANDLINE_OPTIONS
             # > default. It does not say how a generic --pika:ini=key=value entry relates to the dedicated
             # options of other sources: the ini value and the winner among the others are both accepted.
+            # An ini entry inside PIKA_COMMANDLINE_OPTIONS (clo_ini) is an environment-level source: everything
+            # given on the real command line overrides it.
+            # Exception: against an environment-level --pika:ini entry (clo_ini) the command line must win
+            # whatever its form - that is a PIKA_COMMANDLINE_OPTIONS entry for the very same key.
             ded = [(src, v) for src, v in srcs if src != "ini"]
             acc = {v for src, v in srcs if src == "ini"}
             if ded:
                 top = max(RANK[src] for src, _ in ded)
-                acc |= {v for src, v in ded if RANK[src] == top}   # same level: no order stated
+                winners = {(src, v) for src, v in ded if RANK[src] == top}   # same level: no order stated
+                if acc and top < RANK["ini"]:
+                    winners = {(src, v) for src, v in winners if src != "clo_ini"}
+                acc |= {v for _, v in winners}
             expected[setting] = acc
     return args, env, expected
 
@@ -240,7 +249,11 @@ def main():
             for setting, s in SETTINGS.items():
                 got = s["observe"](o)
                 if got not in c["expected"][setting]:
-                    fail(idx, "precedence-" + setting, f"{setting}: the runtime uses {got!r}, precedence denotes {sorted(c['expected'][setting])}")
+                    srcs_here = {src for st, src in c["point"] if st == setting}
+                    ident = "precedence-" + setting
+                    if {"ini", "clo_ini"} <= srcs_here and got == s["values"]["clo_ini"]:
+                        ident = "cmdline-ini-vs-commandline-options-ini"    # both are --pika:ini entries, the one from the environment string wins
+                    fail(idx, ident, f"{setting}: the runtime uses {got!r}, precedence denotes {sorted(c['expected'][setting])}")
                 elif not s["consistent"](o):
                     fail(idx, "not-in-effect-" + setting, f"{setting}: resolved value {got!r} is not what the running runtime uses ({ {k: o[k] for k in ('os_threads', 'scheduler', 'stack_small', 'stack_medium', 'stack_large', 'stack_huge', 'worker_masks')} })")
             states.add(json.dumps({k: sorted(v) for k, v in c["expected"].items()}, sort_keys=True))
